@@ -1283,7 +1283,11 @@ func (ctx *RenderContext) getItem(container, index interface{}) (interface{}, er
 				return nil, nil
 			}
 
-			if indexValue.Type().ConvertibleTo(keyType) {
+			// (a number is convertible to a string type in Go, but the result is
+			// the character with that code, not the number's text: 1 becomes
+			// "\x01"; a numeric subscript of a string-keyed map goes by its text)
+			numberToString := keyType.Kind() == reflect.String && indexValue.Kind() != reflect.String
+			if indexValue.Type().ConvertibleTo(keyType) && !numberToString {
 				mapKey = indexValue.Convert(keyType)
 			} else {
 				// Try string conversion for the key
